@@ -64,6 +64,7 @@ type HarnessResult struct {
 	WallS      float64
 	SolverS    float64
 	Queries    int
+	Fallback   int // queries the primary solver left undecided and a fallback solver decided
 	SampleModel map[string]uint64
 	Exhausted  bool // all paths explored within budget
 }
@@ -218,7 +219,7 @@ func RunAll(sh *Shared, fns []*ssa.Function, opt Options, nworkers int, progress
 				}
 				var st Stats
 				funcs := map[string]bool{}
-				q0, t0 := w.S.Queries, w.S.Time
+				q0, t0, fb0 := w.S.Queries, w.S.Time, w.S.NFallback
 				ex := &Exec{C: w.C, S: w.S, Prog: sh.Prog, Shared: sh, Sizes: sh.Sizes,
 					H:      &HarnessCfg{Name: h.fn.Name()},
 					prefix: prefix, globals: map[*ssa.Global]*Obj{}, pkgInit: map[*ssa.Package]bool{},
@@ -260,6 +261,7 @@ func RunAll(sh *Shared, fns []*ssa.Function, opt Options, nworkers int, progress
 					res.Stats.MaxPC = st.MaxPC
 				}
 				res.Queries += w.S.Queries - q0
+				res.Fallback += w.S.NFallback - fb0
 				res.SolverS += (w.S.Time - t0).Seconds()
 				res.WallS += time.Since(pt0).Seconds()
 				if completed {
